@@ -192,8 +192,8 @@ package cache
 //@   invariant 2: OthersKept(t) && StoredWf(t) && n.Update == nil && n.Delete == nil && InputsWf(updates, deletes) && Owing($range, $i)
 //@     && updates == old(n.Update) && deletes == old(n.Delete) && updSteps == old(updSteps) + len(updates) && delSteps == old(delSteps) + $i1 + 1 && 0 <= $i1 && $i1 < len(deletes)
 //@   invariant 3: OthersKept(t) && StoredWf(t) && Owing($range, $i) && updSteps == old(updSteps) && delSteps == old(delSteps) + 1
-//@   ensures [updates-then-deletes C03] !n.Atomic ==> updSteps == old(updSteps) + old(len(n.Update)) && delSteps == old(delSteps) + old(len(n.Delete))
-//@   ensures [atomic-is-one-step C03] n.Atomic && len(n.Delete) == 0 ==> updSteps == old(updSteps) + ite(len(n.Update) > 0, 1, 0) && delSteps == old(delSteps)
+//@   ensures [updates-then-deletes C03 C01] !n.Atomic ==> updSteps == old(updSteps) + old(len(n.Update)) && delSteps == old(delSteps) + old(len(n.Delete))
+//@   ensures [atomic-is-one-step C03 C01] n.Atomic && len(n.Delete) == 0 ==> updSteps == old(updSteps) + ite(len(n.Update) > 0, 1, 0) && delSteps == old(delSteps)
 //@   ensures [ts-advanced-on-accept C15] old(GuardTS(n)) && old(Single(n)) && res0 == nil ==> tsSeen[t] >= n.Timestamp
 //@   ensures [ts-untouched-on-reject C15 C02] old(Single(n)) && res0 != nil ==> tsSeen == old(tsSeen)
 //@   ensures [latest-timestamp-any-path C15] old(Single(n)) && old(Real(n)) && res0 == nil ==> tsSeen[t] >= n.Timestamp
